@@ -232,6 +232,7 @@ func (fr *Frame) locLoad(l *Loc, st *State, pos token.Pos) Term {
 	} else {
 		vc.Safe("nil", pos, st, Not(Eq(PArr(l.Ptr), IntLit(0))), "nil pointer dereference")
 		st.Assume(Not(Eq(PArr(l.Ptr), IntLit(0))))
+		fr.guardCheck(l, st, false, pos)
 		if l.Slice != nil {
 			root = vc.elemLoad(st, l.Root, *l.Slice, *l.Index)
 		} else {
@@ -241,6 +242,9 @@ func (fr *Frame) locLoad(l *Loc, st *State, pos token.Pos) Term {
 	v := root
 	for _, f := range l.Path {
 		v = vc.ss.FieldGet(v, f)
+	}
+	if l.Cell == nil && !fr.pure && len(vc.defScopes) == 0 && len(l.Path) > 0 {
+		fr.assumeTypeInv(l, st)
 	}
 	// values read from memory refer to allocated objects only
 	if l.Cell == nil && !fr.pure && len(vc.defScopes) == 0 {
@@ -263,6 +267,7 @@ func (fr *Frame) locStore(l *Loc, st *State, v Term, pos token.Pos) {
 	} else {
 		vc.Safe("nil", pos, st, Not(Eq(PArr(l.Ptr), IntLit(0))), "nil pointer dereference (store)")
 		st.Assume(Not(Eq(PArr(l.Ptr), IntLit(0))))
+		fr.guardCheck(l, st, true, pos)
 		if len(l.Path) > 0 {
 			root = vc.heapLoad(st, l.Root, l.Ptr)
 		}
@@ -273,6 +278,14 @@ func (fr *Frame) locStore(l *Loc, st *State, v Term, pos token.Pos) {
 	} else {
 		fr.frameCheck(st, l, pos)
 		vc.heapStore(st, l.Root, l.Ptr, nv)
+		if tn := typeInvName(l.Root); tn != "" && vc.L.CF.TypeInvs[tn] != nil {
+			nd := map[string]dirtyObj{}
+			for k, d := range st.dirty {
+				nd[k] = d
+			}
+			nd[tn+"|"+l.Ptr.S] = dirtyObj{typ: tn, ptr: l.Ptr}
+			st.dirty = nd
+		}
 	}
 }
 
@@ -282,6 +295,47 @@ func (fr *Frame) setPath(root Term, path []int, v Term) Term {
 	}
 	inner := fr.setPath(fr.vc.ss.FieldGet(root, path[0]), path[1:], v)
 	return fr.vc.ss.FieldSet(root, path[0], inner)
+}
+
+func typeInvName(t types.Type) string {
+	if n, ok := t.(*types.Named); ok && n.Obj().Pkg() != nil && n.Obj().Pkg().Path() == pkgPath {
+		return n.Obj().Name()
+	}
+	return ""
+}
+
+// assumeTypeInv: objects of a type with a representation invariant satisfy it
+// whenever package code reads them (it is proved wherever they are written).
+func (fr *Frame) assumeTypeInv(l *Loc, st *State) {
+	vc := fr.vc
+	tn := typeInvName(l.Root)
+	if tn == "" {
+		return
+	}
+	cl := vc.L.CF.TypeInvs[tn]
+	if cl == nil || vc.inTypeInv {
+		return
+	}
+	// not while the object is being built or modified by this activation
+	if _, d := st.dirty[tn+"|"+l.Ptr.S]; d {
+		return
+	}
+	key := tn + "|" + l.Ptr.S + "|" + vc.heapFor(st, vc.ss.HeapName(l.Root), HeapSort(vc.specialSort(l.Root))).S
+	if st.invSeen[key] {
+		return
+	}
+	ns := map[string]bool{}
+	for k := range st.invSeen {
+		ns[k] = true
+	}
+	ns[key] = true
+	st.invSeen = ns
+	vc.inTypeInv = true
+	p := l.Ptr
+	g := fr.evalClauseWith(cl, func(cp ClauseParam, old bool) Val { return TV(p) }, st, nil)
+	vc.inTypeInv = false
+	vc.assumptions["representation invariant of "+tn+" assumed on read, proved on write: "+cl.Src] = true
+	st.Assume(g)
 }
 
 // asLoc views a value as a location (pointer values become heap locations).
